@@ -279,7 +279,7 @@ theorem evalF_no_fuel_abort [DecidableEq N] (sys : Sys N) (maxDepth : Nat) (sc :
                if d + 1 = maxDepth then .err .depth
                else if n ∈ V then .ok false true false
                else evalF sys maxDepth sc cache fuel (d + 1) (n :: V) (sys.rule n)) := by
-          simp [evalF]
+          rfl
         rw [hstep]
         cases cache n with
         | some b => simp [NoAbort]
@@ -295,20 +295,24 @@ theorem evalF_no_fuel_abort [DecidableEq N] (sys : Sys N) (maxDepth : Nat) (sc :
               have hb := hr.bound n
               have hh := hH n
               simp only [fuelBound, height] at hf ⊢
-              have e1 : maxDepth - d = (maxDepth - (d + 1)) + 1 := by omega
-              rw [e1, Nat.add_mul] at hf
-              have : (H + 1) * (rank n + (maxDepth - (d + 1)) * (R + 1)) + (H + 1) ≤
-                     (H + 1) * (k + ((maxDepth - (d + 1)) * (R + 1) + 1 * (R + 1))) := by
+              have e2 : (maxDepth - d) * (R + 1) = (maxDepth - (d + 1)) * (R + 1) + (R + 1) := by
+                have e1 : maxDepth - d = (maxDepth - (d + 1)) + 1 := by omega
+                rw [e1, Nat.add_mul, Nat.one_mul]
+              rw [e2] at hf
+              have key : (H + 1) * (rank n + (maxDepth - (d + 1)) * (R + 1)) + (H + 1) ≤
+                     (H + 1) * (k + ((maxDepth - (d + 1)) * (R + 1) + (R + 1))) := by
                 rw [← Nat.mul_succ]
                 apply Nat.mul_le_mul_left
                 omega
+              generalize (H + 1) * (rank n + (maxDepth - (d + 1)) * (R + 1)) = P2 at key ⊢
+              generalize (H + 1) * (k + ((maxDepth - (d + 1)) * (R + 1) + (R + 1))) = P1 at key hf
               omega
       | false =>
         have hstep : evalF sys maxDepth sc cache (fuel + 1) d V (.node false n) =
             (if d = maxDepth then .err .depth
              else if n ∈ V then .ok false true false
              else evalF sys maxDepth sc cache fuel d (n :: V) (sys.rule n)) := by
-          simp [evalF]
+          rfl
         rw [hstep]
         by_cases h1 : d = maxDepth
         · simp [h1, NoAbort]
@@ -320,11 +324,13 @@ theorem evalF_no_fuel_abort [DecidableEq N] (sys : Sys N) (maxDepth : Nat) (sc :
               apply ih d (n :: V) (sys.rule n) (rank n) hd (hr.decr n)
               have hh := hH n
               simp only [fuelBound, height] at hf ⊢
-              have : (H + 1) * (rank n + (maxDepth - d) * (R + 1)) + (H + 1) ≤
+              have key : (H + 1) * (rank n + (maxDepth - d) * (R + 1)) + (H + 1) ≤
                      (H + 1) * (k + (maxDepth - d) * (R + 1)) := by
                 rw [← Nat.mul_succ]
                 apply Nat.mul_le_mul_left
                 omega
+              generalize (H + 1) * (rank n + (maxDepth - d) * (R + 1)) = P2 at key ⊢
+              generalize (H + 1) * (k + (maxDepth - d) * (R + 1)) = P1 at key hf
               omega
     | or es =>
       simp only [evalF]
@@ -364,6 +370,130 @@ theorem evalF_no_fuel_abort [DecidableEq N] (sys : Sys N) (maxDepth : Nat) (sc :
         · exact exclR_noAbort _ _ _ (ih d V b k hd hb fb) (clearFlag_noAbort _ (ih d [] s k hd hs fs))
         · exact exclR_noAbort _ _ _ (ih d V b k hd hb fb) (ih d V s k hd hs fs)
 
+
+/-- **Fuel independence.** Beyond the bound the result does not depend on the fuel at all: the fuel of the
+executable model is not observable. -/
+theorem evalF_fuel_stable [DecidableEq N] (sys : Sys N) (maxDepth : Nat) (sc : Sched) (cache : N → Option Bool)
+    (rank : N → Nat) (R H : Nat) (hr : Ranked sys rank R) (hH : RuleHeight sys H) :
+    ∀ (fuel d : Nat) (V : List N) (e : Expr N) (k : Nat), d < maxDepth → NDBelow rank k e →
+      fuelBound maxDepth H R d k (height e) ≤ fuel →
+      evalF sys maxDepth sc cache (fuel + 1) d V e = evalF sys maxDepth sc cache fuel d V e := by
+  intro fuel
+  induction fuel with
+  | zero =>
+    intro d V e k _ _ hf
+    have := height_pos e
+    simp only [fuelBound] at hf
+    omega
+  | succ fuel ih =>
+    intro d V e k hd hk hf
+    cases e with
+    | lit v => rfl
+    | node dispatch n =>
+      cases dispatch with
+      | true =>
+        have hstep : ∀ f, evalF sys maxDepth sc cache (f + 1) d V (.node true n) =
+            (match cache n with
+             | some b => .ok b false false
+             | none =>
+               if d + 1 = maxDepth then .err .depth
+               else if n ∈ V then .ok false true false
+               else evalF sys maxDepth sc cache f (d + 1) (n :: V) (sys.rule n)) := fun _ => rfl
+        rw [hstep (fuel + 1), hstep fuel]
+        cases cache n with
+        | some b => rfl
+        | none =>
+          simp only []
+          by_cases h1 : d + 1 = maxDepth
+          · simp [h1]
+          · by_cases h2 : n ∈ V
+            · simp [h1, h2]
+            · rw [if_neg h1, if_neg h2, if_neg h1, if_neg h2]
+              have hd' : d + 1 < maxDepth := by omega
+              apply ih (d + 1) (n :: V) (sys.rule n) (rank n) hd' (hr.decr n)
+              have hb := hr.bound n
+              have hh := hH n
+              simp only [fuelBound, height] at hf ⊢
+              have e2 : (maxDepth - d) * (R + 1) = (maxDepth - (d + 1)) * (R + 1) + (R + 1) := by
+                have e1 : maxDepth - d = (maxDepth - (d + 1)) + 1 := by omega
+                rw [e1, Nat.add_mul, Nat.one_mul]
+              rw [e2] at hf
+              have key : (H + 1) * (rank n + (maxDepth - (d + 1)) * (R + 1)) + (H + 1) ≤
+                     (H + 1) * (k + ((maxDepth - (d + 1)) * (R + 1) + (R + 1))) := by
+                rw [← Nat.mul_succ]
+                apply Nat.mul_le_mul_left
+                omega
+              generalize (H + 1) * (rank n + (maxDepth - (d + 1)) * (R + 1)) = P2 at key ⊢
+              generalize (H + 1) * (k + ((maxDepth - (d + 1)) * (R + 1) + (R + 1))) = P1 at key hf
+              omega
+      | false =>
+        have hstep : ∀ f, evalF sys maxDepth sc cache (f + 1) d V (.node false n) =
+            (if d = maxDepth then .err .depth
+             else if n ∈ V then .ok false true false
+             else evalF sys maxDepth sc cache f d (n :: V) (sys.rule n)) := fun _ => rfl
+        rw [hstep (fuel + 1), hstep fuel]
+        by_cases h1 : d = maxDepth
+        · simp [h1]
+        · by_cases h2 : n ∈ V
+          · simp [h1, h2]
+          · rw [if_neg h1, if_neg h2, if_neg h1, if_neg h2]
+            cases hk with
+            | nodeN _ hlt =>
+              apply ih d (n :: V) (sys.rule n) (rank n) hd (hr.decr n)
+              have hh := hH n
+              simp only [fuelBound, height] at hf ⊢
+              have key : (H + 1) * (rank n + (maxDepth - d) * (R + 1)) + (H + 1) ≤
+                     (H + 1) * (k + (maxDepth - d) * (R + 1)) := by
+                rw [← Nat.mul_succ]
+                apply Nat.mul_le_mul_left
+                omega
+              generalize (H + 1) * (rank n + (maxDepth - d) * (R + 1)) = P2 at key ⊢
+              generalize (H + 1) * (k + (maxDepth - d) * (R + 1)) = P1 at key hf
+              omega
+    | or es =>
+      cases hk with
+      | or _ hall =>
+        have : es.map (evalF sys maxDepth sc cache (fuel + 1) d V) = es.map (evalF sys maxDepth sc cache fuel d V) := by
+          apply List.map_congr_left
+          intro e he
+          apply ih d V e k hd (hall e he)
+          have := height_le_heightL he
+          simp only [fuelBound, height] at hf ⊢
+          omega
+        have hstep : ∀ f, evalF sys maxDepth sc cache (f + 1) d V (.or es) =
+            unionR (arrange sc (es.map (evalF sys maxDepth sc cache f d V))) := fun _ => rfl
+        rw [hstep (fuel + 1), hstep fuel, this]
+    | and es =>
+      cases hk with
+      | and _ hall =>
+        have : es.map (evalF sys maxDepth sc cache (fuel + 1) d V) = es.map (evalF sys maxDepth sc cache fuel d V) := by
+          apply List.map_congr_left
+          intro e he
+          apply ih d V e k hd (hall e he)
+          have := height_le_heightL he
+          simp only [fuelBound, height] at hf ⊢
+          omega
+        have hstep : ∀ f, evalF sys maxDepth sc cache (f + 1) d V (.and es) =
+            interR (arrange sc (es.map (evalF sys maxDepth sc cache f d V))) := fun _ => rfl
+        rw [hstep (fuel + 1), hstep fuel, this]
+    | diff b s =>
+      cases hk with
+      | diff _ _ hb hs =>
+        have fb : fuelBound maxDepth H R d k (height b) ≤ fuel := by
+          simp only [fuelBound, height] at hf ⊢
+          have := Nat.le_max_left (height b) (height s)
+          omega
+        have fs : fuelBound maxDepth H R d k (height s) ≤ fuel := by
+          simp only [fuelBound, height] at hf ⊢
+          have := Nat.le_max_right (height b) (height s)
+          omega
+        have hstep : ∀ f, evalF sys maxDepth sc cache (f + 1) d V (.diff b s) =
+            (if sc.ideal then
+               exclR sc.baseFirst (evalF sys maxDepth sc cache f d V b) (clearFlag (evalF sys maxDepth sc cache f d [] s))
+             else exclR sc.baseFirst (evalF sys maxDepth sc cache f d V b) (evalF sys maxDepth sc cache f d V s)) :=
+          fun _ => rfl
+        rw [hstep (fuel + 1), hstep fuel, ih d V b k hd hb fb, ih d V s k hd hs fs, ih d [] s k hd hs fs]
+
 /-- from the root (`ResolveCheck` of the request at depth 0): `1 + (H+1)·(R+1)·(maxDepth+1)` fuel suffices -/
 theorem evalF_root_no_fuel_abort [DecidableEq N] (sys : Sys N) (maxDepth : Nat) (sc : Sched) (cache : N → Option Bool)
     (rank : N → Nat) (R H : Nat) (hr : Ranked sys rank R) (hH : RuleHeight sys H) (hm : 0 < maxDepth)
@@ -373,10 +503,14 @@ theorem evalF_root_no_fuel_abort [DecidableEq N] (sys : Sys N) (maxDepth : Nat) 
     (.nodeN root (Nat.lt_succ_self _))
   have hb := hr.bound root
   simp only [fuelBound, height, Nat.sub_zero]
-  have : (H + 1) * (rank root + 1 + maxDepth * (R + 1)) ≤ (H + 1) * ((R + 1) * (maxDepth + 1)) := by
+  have e : (R + 1) * (maxDepth + 1) = maxDepth * (R + 1) + (R + 1) := by
+    rw [Nat.mul_succ, Nat.mul_comm]
+  have key : (H + 1) * (rank root + 1 + maxDepth * (R + 1)) ≤ (H + 1) * ((R + 1) * (maxDepth + 1)) := by
     apply Nat.mul_le_mul_left
-    rw [Nat.mul_add, Nat.mul_one, Nat.mul_comm (R + 1) maxDepth]
+    rw [e]
     omega
+  generalize (H + 1) * (rank root + 1 + maxDepth * (R + 1)) = P2 at key ⊢
+  generalize (H + 1) * ((R + 1) * (maxDepth + 1)) = P1 at key hf
   omega
 
 end OpenFGAVerif.DfsTermination
